@@ -175,13 +175,28 @@ package lexer
 //@ func lexTaskBody
 //@ implements lexer.lexFn
 
+// dropCarriageReturns: the end of the pending token moves back over carriage returns only
+//@ func (*Lexer).dropCarriageReturns
+//@ requires LInv(l)
+//@ modifies l.pos
+//@ ensures LInv(l) && l.start <= l.pos && l.pos <= old(l.pos) && (l.start < old(l.pos) && l.input[old(l.pos) - 1] != 13 ==> l.pos == old(l.pos))
+//@ ensures forall k int :: {l.input[k]} l.pos <= k && k < old(l.pos) ==> l.input[k] == 13
+//@ ensures l.pos > l.start ==> l.input[l.pos - 1] != 13
+//@ loop 0: invariant LInv(l) && l.start <= l.pos && l.pos <= old(l.pos)
+//@ loop 0: invariant forall k int :: {l.input[k]} l.pos <= k && k < old(l.pos) ==> l.input[k] == 13
+//@ loop 0: decreases l.pos - l.start
+
+//@ ghost scratch crEnd int
 //@ func lexTaskCommands
 //@ implements lexer.lexFn
 //@ loop 0: invariant LInv(l) && l.start >= old(l.start) && (old(l.done) ==> l.done) && l.exp == 3
 //@ loop 0: decreases (l.done ? 0 : 1), len(l.input) - l.pos
-//@ at call skipWhitespace#0: use skipWS_unfold(l.input, l.pos)
-//@ at call skipWhitespace#1: use skipWS_unfold(l.input, l.pos)
-//@ at call skipWhitespace#1: use skipWS_unfold(l.input, l.pos + 1)
+//@ at call dropCarriageReturns#0: ghost crEnd = l.pos
+//@ at call skipWhitespace#0: use skipWS_blanks(l.input, l.pos, crEnd - l.pos)
+//@ at call skipWhitespace#0: use skipWS_unfold(l.input, crEnd)
+//@ at return backup#1: ghost crEnd = l.pos
+//@ at call skipWhitespace#1: use skipWS_blanks(l.input, l.pos, crEnd - l.pos)
+//@ at call skipWhitespace#1: use skipWS_unfold(l.input, crEnd)
 
 //@ func lexTaskName
 //@ implements lexer.lexFn
